@@ -305,13 +305,16 @@ def gen_function_visible(bdir):
 class C07(Prop):
     id = "C07"
     title = "calls reach the right function and respect visibility, whatever came before"
-    lean_modules = ["NV.C07.Props", "NV.C07.Witness", "NV.C07.OracleTests"]
+    lean_modules = ["NV.C07.Props", "NV.C07.Witness", "NV.C07.OracleTests", "NV.C07.LemmasCompress"]
     theorems = ["NV.C07.visibility_table", "NV.C07.visibility_any_flags", "NV.C07.visibility_lifted",
                 "NV.C07.driver_origins_never_refused", "NV.C07.bsearch_correct", "NV.C07.find_function_correct",
                 "NV.C07.find_offsets_are_path_sums", "NV.C07.cache_transparent_step", "NV.C07.cache_transparent",
                 "NV.C07.frame_offsets_correct", "NV.C07.call_other_origin_is_call_other", "NV.C07.call_origin_consumed",
-                "NV.C07.built_alias_flags_agree", "NV.C07.built_flags_agree", "NV.C07.built_inherits_in_world", "NV.C07.inherit_flags_rule_is_spec"]
-    witness_theorems = ["NV.C07.Witness.old_cache_not_transparent", "NV.C07.Witness.origin_stored_once_runs_static"]
+                "NV.C07.built_alias_flags_agree", "NV.C07.built_flags_agree", "NV.C07.built_inherits_in_world", "NV.C07.inherit_flags_rule_is_spec",
+                "NV.C07.find_func_entry_compress", "NV.C07.compressWith_lookup", "NV.C07.fillGo_spec", "NV.C07.inhSearch_spec",
+                "NV.C07.remake_expected"]
+    witness_theorems = ["NV.C07.Witness.old_cache_not_transparent", "NV.C07.Witness.origin_stored_once_runs_static",
+                        "NV.C07.Witness.old_compress_overflow_branch_loses_entries"]
     consts = [("applyCacheBits", "APPLY_CACHE_BITS"),
               ("nameInherited", "NAME_INHERITED"), ("nameUndefined", "NAME_UNDEFINED"),
               ("namePrototype", "NAME_PROTOTYPE"), ("nameDefByInherit", "NAME_DEF_BY_INHERIT"),
@@ -421,7 +424,7 @@ class C07(Prop):
             impl = self.last_impl.get(c.id)
             if impl is None:
                 impl = self.run_impl(ctx, [c]).get(c.id, [])
-            dumped = [l for l in impl if l.split(" ", 1)[0] in ("nm", "tbl", "obj") or re.match(r"ld \S+ !fail$", l)]
+            dumped = [l for l in impl if l.split(" ", 1)[0] in ("nm", "tbl", "cmp", "obj") or re.match(r"ld \S+ !fail$", l)]
             ms.append(E.Case(c.id, c.lines + ["--"] + dumped))
         return E.nvdrive(self.id, "model", E.cases_text(ms))
 
@@ -514,7 +517,24 @@ class C07(Prop):
                 seq.append("call %s o1 f%d" % ("co" if (i + rnd) % 2 else "drv", i))
                 seq.append("call %s o0 f%d" % ("drv" if (i + rnd) % 2 else "co", i))
         mk("many-names-collisions", [big0, big1, nm, "ld o0 p0", "ld o1 p1", "dump o0 o1"] + seq)
+        # the compressed function table around its 255-entry limit: a wide base inherited twice (directly and through p1)
+        # leaves N stored overload entries in p2; N > 255 takes the overflow branch of compress_function_tables
+        # (repaired defect: corpus/C07/compress-overflow-260.case)
+        for N in (254, 255, 256, 257, 300):
+            mk("compress-wide-%d" % N, self.wide_case(N))
         return B
+
+    @staticmethod
+    def wide_case(N, proto_first=True):
+        p0 = "prog p0 " + " ".join("d:%s:f%d:-" % ("static" if i % 7 == 3 else "-", i) for i in range(N))
+        p1 = "prog p1 i:-:p0 d:-:g0:Lf1 v:private"
+        p2 = "prog p2 %si:-:p0 i:-:p1 d:-:h0:Lf0 d:-:h1:Lf%d+Lg0 d:-:h2:Ff%d+S*.f2" % ("p:-:h0 " if proto_first else "", N - 2, N - 1)
+        p3 = "prog p3 i:-:p2 d:-:k0:Lh1+Lf%d" % (N // 2)
+        names = "names " + " ".join("f%d" % i for i in range(N)) + " g0 h0 h1 h2 k0 nosuch"
+        seq = ["ld o2 p2", "ld o3 p3", "dump o2 o3", "call co o2 f0", "call co o2 h0", "call drv o2 h1", "call co o2 h2",
+               "call co o3 k0", "call co o3 f3", "call drv o3 f3", "call co o2 f%d" % (N - 1), "call cot o3 f%d" % (N - 1),
+               "call co o3 nosuch", "call co o3 g0"]
+        return [p0, p1, p2, p3, names] + seq
 
     def gen_graph(self, rng):
         n = rng.weighted([(2, 2), (3, 4), (4, 5), (5, 4), (6, 2), (7, 1)])
